@@ -7,14 +7,14 @@ pub fn def() -> PropDef {
     PropDef {
         id: "C13",
         builds: BOTH,
-        rule: "every plain text over {L,SP,HY,W,CM,NL} up to length N x every placement of 1 or 2 sequences from {CSI SGR, OSC hyperlink, OSC hyperlink with a hyphen in its URL, CSI with the non-letter final byte '~'} at symbol boundaries that satisfies the statement's attachment condition (touches a non-space, non-line-ending character; not adjacent to '-' when the hyphen splitter is active) x widths 0..=len+2 x separators x algorithms x none/hyphen x break_words; non-trivial = the coloured text wraps into >= 2 lines",
+        rule: "every plain text over {L,SP,HY,W,CM,NL} up to length N x every placement of 1 or 2 sequences from {CSI SGR, OSC hyperlink, OSC hyperlink with a hyphen in its URL, CSI with the non-letter final byte '~', SGR with colon sub-parameters, a 37-byte SGR} at symbol boundaries that satisfies the statement's attachment condition (touches a non-space, non-line-ending character; not adjacent to '-' when the hyphen splitter is active) x widths 0..=len+2 x separators x algorithms x none/hyphen x break_words; non-trivial = the coloured text wraps into >= 2 lines",
         assumptions: BASE_ASSUMPTIONS,
         floor: |t| t.pick(100_000, 300_000),
         run,
     }
 }
 
-const SEQS: &[&str] = &["\x1b[1m", "\x1b]8;;u\x1b\\", "\x1b]8;;1-2-3\x1b\\", "\x1b[3~"];
+const SEQS: &[&str] = &["\x1b[1m", "\x1b]8;;u\x1b\\", "\x1b]8;;1-2-3\x1b\\", "\x1b[3~", "\x1b[4:3m", "\x1b[38;2;255;255;255;48;2;255;255;255m"];
 
 fn gamma() -> Gamma {
     Gamma { seps: seps(), algs: algs_default(), spls: vec![Spl::None, Spl::Hyphen], bws: vec![true, false], indents: vec![("", "")], crlf: vec![false] }
@@ -145,7 +145,7 @@ fn space(r: &mut Run, name: &str, n: usize, double: bool) -> Result<(), Machiner
 
 fn run(r: &mut Run) -> Result<(), MachineryError> {
     let t = r.tier;
-    space(r, "C13/one-sequence", t.pick(5, 7), false)?;
-    space(r, "C13/two-sequences", t.pick(4, 6), true)?;
+    space(r, "C13/one-sequence", t.pick(5, 6), false)?;
+    space(r, "C13/two-sequences", t.pick(3, 5), true)?;
     Ok(())
 }
